@@ -503,7 +503,7 @@ var (
 	c12ReBlob    = regexp.MustCompile(`^blobs/sha256-([0-9a-f]{64})$`)
 	c12RePartial = regexp.MustCompile(`^blobs/sha256-([0-9a-f]{64})-partial$`)
 	c12RePart    = regexp.MustCompile(`^blobs/sha256-([0-9a-f]{64})-partial-([0-9]+)$`)
-	c12ReTemp    = regexp.MustCompile(`^blobs/(sha256-[0-9]+)$`)
+	c12ReTemp    = regexp.MustCompile(`^blobs/(sha256-[0-9]+|tmp-[0-9]+)$`)
 	c12ReMan     = regexp.MustCompile(`^manifests/([^/]+/[^/]+/[^/]+/[^/]+)$`)
 )
 
@@ -545,9 +545,29 @@ func c12Hex64(d string) string {
 	return d
 }
 
+// c12AutoKind guesses what a writeFileAtomic temp file (blobs/tmp-*) holds from its JSON keys.
+func c12AutoKind(data []byte) byte {
+	var keys map[string]json.RawMessage
+	if err := json.Unmarshal(data, &keys); err == nil {
+		if _, ok := keys["schemaVersion"]; ok {
+			return 'M'
+		}
+		if _, ok := keys["Completed"]; ok {
+			return 'R'
+		}
+	}
+	return 'T'
+}
+
+func c12IsAtomicTemp(abs string) bool { return strings.HasPrefix(filepath.Base(abs), "tmp-") }
+
 // c12Content renders file content at a canonical path the way the oracle prints model content.
 func c12Content(cpath string, data []byte) string {
 	switch cpath[0] {
+	case 'A': // atomic temp: manifest or part record text
+		if k := c12AutoKind(data); k != 'T' {
+			return c12Content(string(k)+":", data)
+		}
 	case 'M':
 		var m Manifest
 		if err := json.Unmarshal(data, &m); err == nil {
@@ -591,6 +611,8 @@ func (c *c12Canon) effects(evs []c12Sys) []string {
 			}
 			if p[0] == 'M' || p[0] == 'R' {
 				out = append(out, "put "+p+" "+c12Content(p, e.Data))
+			} else if c12IsAtomicTemp(e.Path) {
+				out = append(out, "put "+p+" "+c12Content("A:", e.Data))
 			} else {
 				out = append(out, "app "+p+" "+zzverif.Hex(e.Data))
 			}
@@ -641,10 +663,15 @@ func c12State(store string) []string {
 		}
 		data, _ := os.ReadFile(p)
 		cp := c.path(p)
+		kind := cp
 		if strings.HasPrefix(cp, "T:") {
 			cp = "T:*"
+			kind = cp
+			if c12IsAtomicTemp(p) {
+				kind = "A:"
+			}
 		}
-		out = append(out, cp+"="+c12Content(cp, data))
+		out = append(out, cp+"="+c12Content(kind, data))
 		return nil
 	})
 	sort.Strings(out)
@@ -1072,6 +1099,34 @@ func TestVerifC12(t *testing.T) {
 		crashStore("S3", "S2", &opPullNew, nth("rm R:", 1))
 		crashStore("S4", "S2", &opPullNew, nth("pw ", 2))
 
+		// ---- which variant is this tree? (from the real syscall trace, no constant)
+		am, ap := 0, 0
+		{
+			probe := func(name string, op *c12Op) []string {
+				dir := filepath.Join(work, fmt.Sprintf("r%d-variant-%s", round, name))
+				c12CopyTree(stores["S1"], dir)
+				evs, _, _, _, err := runChild(op, dir, 0)
+				if err != nil {
+					t.Fatalf("variant probe %s: %v", name, err)
+				}
+				return (&c12Canon{store: dir, temps: map[string]int{}}).effects(evs)
+			}
+			for _, e := range probe("copy", &opCopyNew) {
+				if f := strings.Fields(e); f[0] == "mv" && strings.HasPrefix(f[1], "T:") && strings.HasPrefix(f[2], "M:") {
+					am = 1
+				}
+			}
+			for _, e := range probe("pull", &opPullNew) {
+				if f := strings.Fields(e); f[0] == "mv" && strings.HasPrefix(f[1], "T:") && strings.HasPrefix(f[2], "R:") {
+					ap = 1
+				}
+			}
+			if round == 0 {
+				out.Add("variant_atomic_manifest", am)
+				out.Add("variant_atomic_part_record", ap)
+			}
+		}
+
 		type scenario struct {
 			Store, Label string
 			Op           *c12Op
@@ -1130,7 +1185,7 @@ func TestVerifC12(t *testing.T) {
 			for _, e := range baseState { // blobs already in the store may be hashed by verify
 				_ = e
 			}
-			job := fmt.Sprintf("%s %s %d %s", c12StoreTokens(baseState, true), c12HashTokens(hashed), max(1, sc.Op.Chunk), opToks)
+			job := fmt.Sprintf("%s %s %d %d %d %s", c12StoreTokens(baseState, true), c12HashTokens(hashed), max(1, sc.Op.Chunk), am, ap, opToks)
 			okTok := " | ok"
 			if res != "ok" {
 				okTok = " | fail"
